@@ -1493,6 +1493,8 @@ def external_attr(interp, mod: ModRef, attr):
             return math.pi
         if attr in ("int64", "int32", "float64", "complex128"):
             return Builtin("int", python_builtin(interp, "int").fn)
+        if attr == "inf":
+            return float("inf")
         raise Undecided(f"numpy.{attr} has no [A] model")
     if name == "numpy.random":
         if attr == "randint":
